@@ -460,3 +460,32 @@ pub fn serve_plain(mut s: TcpStream, sc: &Script) -> Exchange {
     }
     ex
 }
+
+
+/// Drop a connection the hard way (TCP RST instead of FIN): SO_LINGER with a zero timeout, then close. What a
+/// printer waking up from power save, a crashing server or a stateful firewall do to a connection.
+pub fn reset(s: TcpStream) {
+    use std::os::fd::AsRawFd;
+    let l = libc::linger { l_onoff: 1, l_linger: 0 };
+    unsafe {
+        libc::setsockopt(s.as_raw_fd(), libc::SOL_SOCKET, libc::SO_LINGER, &l as *const _ as *const libc::c_void, std::mem::size_of::<libc::linger>() as libc::socklen_t);
+    }
+    drop(s);
+}
+
+/// read at most `n` bytes (or until nothing arrives for 300 ms), then reset the connection
+pub fn read_some_then_reset(mut s: TcpStream, n: usize) -> usize {
+    let _ = s.set_read_timeout(Some(Duration::from_millis(300)));
+    let mut got = 0;
+    let mut buf = vec![0u8; 4096];
+    while got < n {
+        let want = (n - got).min(buf.len());
+        match s.read(&mut buf[..want]) {
+            Ok(0) => break,
+            Ok(k) => got += k,
+            Err(_) => break,
+        }
+    }
+    reset(s);
+    got
+}
